@@ -86,6 +86,14 @@ class PROP(PropCheck):
                 continue
             src, exp = self.prog_un(s)
             out.append(Case(src, meta={"exp": exp}, kind="corpus"))
+        # the one context-sensitive case mapping: a capital sigma at the end of a word lower-cases to the final form
+        # (letters of the model's alphabet only; no apostrophes / full stops next to the sigma)
+        for s in ["aΣ", "Σ", "aΣb", "ΛΣ ΣΛ", "BΣ1", "ΣΣ", "aΣΣ", "éΣ", "σς", "aΣ Σa", "1Σ", "ΛΣ"]:
+            src = HEAD + "s <- %s\nDISPLAY(TO_LOWER(s))\nDISPLAY(TO_UPPER(s))\nDISPLAY(LENGTH(TO_LOWER(s)))\n" % q(s)
+            out.append(Case(src, meta={"exp": s.lower() + "\n" + s.upper() + "\n" + str(len(s.lower())) + "\n"}, kind="corpus"))
+        # SUBSTRING with a start or a length that is not a number of characters
+        for st, ln in [('TO_NUMBER("NaN")', "5"), ("2", 'TO_NUMBER("NaN")'), ('TO_NUMBER("inf")', "1"), ("1", 'TO_NUMBER("inf")'), ('TO_NUMBER("-inf")', "1")]:
+            out.append(Case(HEAD + 'DISPLAY("[" + SUBSTRING("héllo", %s, %s) + "]")\n' % (st, ln), meta={"exp": None, "nan": True}, kind="corpus"))
         return out
 
     def cases(self, rng, tier, scale=1):
@@ -133,6 +141,8 @@ class PROP(PropCheck):
             return w
         exp = case.meta.get("exp")
         r = R.parse_run(impl)
+        if exp is None and case.meta.get("nan"):
+            return None          # decided by the comparison with the model (a NaN start is an error, a NaN length is empty)
         if exp is None:
             return None if r["cls"] == "RT" else "a SUBSTRING start below 1 did not raise a runtime error"
         if r["cls"] != "OK":
